@@ -101,7 +101,13 @@ func (s *subtreeRun) build(q *subtreeReq) (body []byte, hash [32]byte, noteBytes
 	if q.Log < 0 {
 		origin = "nobody.example/unknown"
 	}
-	root := s.tree.root(q.N)
+	var root [32]byte
+	if q.N > subtreeHugeN {
+		// a tree nobody can build: the checkpoint is cosigned all the same (a log's first checkpoint needs no proof)
+		root = witnessGarbageHash(s.r)
+	} else {
+		root = s.tree.root(q.N)
+	}
 	if q.Text == "otherroot" {
 		root = witnessGarbageHash(s.r)
 	}
@@ -193,11 +199,13 @@ func (s *subtreeRun) build(q *subtreeReq) (body []byte, hash [32]byte, noteBytes
 			panic(err)
 		}
 		hash = [32]byte(h)
-		p, err := torchwood.ProveSubtree(int64(q.N), q.Start, q.End, s.tree)
-		if err != nil {
-			panic(err)
+		if q.N <= subtreeHugeN {
+			p, err := torchwood.ProveSubtree(int64(q.N), q.Start, q.End, s.tree)
+			if err != nil {
+				panic(err)
+			}
+			proof = p
 		}
-		proof = p
 	} else {
 		hash = witnessGarbageHash(s.r)
 	}
@@ -365,6 +373,11 @@ func (s *subtreeRun) expect(q *subtreeReq) (set map[string]bool, signers []int, 
 		}
 		return set, nil, strings.Join(pre, ",")
 	}
+	if q.N > subtreeHugeN {
+		// beyond the size the proof checker accepts at all: nothing can be proven about such a tree
+		set["422"] = true
+		return set, nil, "tree too large for any subtree proof to verify"
+	}
 	if q.Hash != "right" || q.Proof != "right" || q.Text == "otherroot" {
 		set["422"] = true
 		return set, nil, "hash or proof does not verify"
@@ -519,6 +532,26 @@ func (s *subtreeRun) post(body []byte) (int, []byte) {
 }
 
 // ---------------------------------------------------------------- families
+
+// subtreeHugeN: sizes above it are "trees nobody can build" (torchwood's proof checker refuses sizes above 2^62)
+const subtreeHugeN = 1 << 40
+
+// famHuge: reference checkpoints of astronomically large trees, genuinely cosigned: no hash can be proven to be a
+// subtree of such a tree, whatever hash and proof are supplied.
+func (s *subtreeRun) famHuge() {
+	for _, n := range []int{1<<62 + 1, 1<<62 + 70, 1<<63 - 1, 1 << 62, 1<<62 - 1, 1<<41 + 3} {
+		for _, r := range [][2]int64{{0, 1}, {0, 4}, {4, 8}, {64, 70}, {0, 64}, {5, 6}} {
+			for _, sg := range []string{"witness", "both", "none"} {
+				q := subtreeGood(n, r[0], r[1], sg)
+				s.do(q)
+				v := *q
+				v.Proof = []string{"wrong", "overlong", "right"}[int(r[1])%3]
+				v.Hash = []string{"right", "wrong"}[int(r[0])%2]
+				s.do(&v)
+			}
+		}
+	}
+}
 
 func subtreeGood(n int, start, end int64, signer string) *subtreeReq {
 	return &subtreeReq{N: n, Start: start, End: end, Signer: signer, Hash: "right", Proof: "right", Text: "canonical", Body: "ok"}
@@ -803,6 +836,7 @@ func subtreeCasesFor(o *Opts) []subtreeCase {
 	add("signers", 8)
 	add("bodies", 2)
 	add("roundtrip", 4)
+	add("huge", 2)
 	if wide {
 		add("random", 60)
 	} else {
@@ -830,6 +864,9 @@ func subtreeRunCase(c subtreeCase, tr *Trace, st *Stats) []OracleFailure {
 	case "bodies":
 		s = subtreeNewRun(c, tr, st, 40, c.Idx%2 == 0)
 		s.famBodies(9 + c.Idx*7)
+	case "huge":
+		s = subtreeNewRun(c, tr, st, 80, c.Idx%2 == 0)
+		s.famHuge()
 	case "roundtrip":
 		s = subtreeNewRun(c, tr, st, 80, c.Idx%2 == 1)
 		s.famRoundTrip([]int{1, 5, 64, 70}[c.Idx%4])
